@@ -99,10 +99,11 @@ register('C03',
          'key and every validity-strategy table the chain (inductive invariant, which also shows the version-object cache agrees '
          'with the rows of the current transaction and the package never raises on them). Replayed against the real tables after '
          'every flush/commit/rollback on every run.',
-         COMMON_NOTE + 'Monotone id allocation is the database\'s (modelled as 1+max, compared on every run). The machine-level theorem assumes '
-         'flat_hier (no joined child tables; single-table inheritance is inside it). Joined-table hierarchies are decided by the correspondence with '
-         'hier_pass (the model of the repaired predecessor lookup through the topmost table) and the observation predicate hier_chain_ok on generated '
-         'histories, including keys that come back as another class of the hierarchy.',
+         COMMON_NOTE + 'Monotone id allocation is the database\'s (modelled as 1+max, compared on every run). Joined-table hierarchies: the base table is a '
+         'validity table like any other (hier_consistent); for the child tables C03_reachable_hierarchy_chain proves, by induction over the trace, that in '
+         'every reachable state a child row is closed by the next version of its key in the base table whatever its class (the repaired predecessor '
+         'lookup, modelled by hier_pass) - under one monitored environment hypothesis (every version of a subclass entity has its base-table row after '
+         'every flush: trace_pairedb, evaluated on every recorded trace). The real tables are compared after every event, including keys that come back as another class.',
          'Coq proof (table-level chain lemma + inductive machine invariant) + vm_compute replay of recorded traces against the real tables',
          'DESIGN.md §7 C03')
 
@@ -115,7 +116,7 @@ register('C11',
          're-insert with all flush placements up to length 3 (quick) / 4 (thorough) are run on the real code as test inputs '
          'and compared with the model and with the coalescing predicate after every flush.',
          COMMON_NOTE + 'The clause "the row holds the state of the last flushed change" is decided by the C01 check (same model, same '
-         'runs); savepoint-commit points are not generated (savepoints are C06). The machine theorems assume flat_hier (no joined child tables).',
+         'runs); savepoint-commit points are not generated (savepoints are C06). The machine theorems cover joined hierarchies (hier_consistent).',
          'Coq proof (automaton lemma by induction over the event list + inductive machine invariant) + enumerated and random histories replayed against the real tables',
          'DESIGN.md §7 C11')
 
@@ -178,7 +179,7 @@ register('C07',
          'autoflush) is executed with make_versioned and on an identical unversioned model set and per-operation outcomes and final '
          'application tables are compared; after remove_versioning() further work must add no versioning row and leave no listener.',
          COMMON_NOTE + 'Partial: the data-transparency equation is structural in the model; its content for the code comes from the twin '
-         'run (sampling). The machine theorems assume flat_hier (no joined child tables); joined hierarchies incl. objects loaded through the base class are covered by the twin run.',
+         'run (sampling). The machine theorems cover joined hierarchies (hier_consistent); objects loaded through the base class are covered by the twin run.',
          'Coq proof (simulation between configurations; machine invariant) + twin-run differential testing + vm_compute replay',
          'DESIGN.md §7 C07')
 
@@ -256,7 +257,7 @@ register('C06',
          'thorough: every boundary), comparing all tables and the manager maps after the rollback with the state before, and the final '
          'tables with the run from which the failed transaction is deleted; savepoint histories (rollback / release / rollback of the '
          'connection from outside / close with an open savepoint / a flush FAILING inside the savepoint after a versioned INSERT went through / Core statements on the association table inside the savepoint, begun after a relationship-only flush or a hand-made record) over several classes, all tables compared after every event; per database transaction exactly one record carries all rows written (one_tx) and the association versions replay to the live links (links_replay).',
-         COMMON_NOTE + 'The Layer-B equations assume flat_hier (no joined child tables). Process death (torn files) is the database journal\'s business and cannot be exhibited by the model (atomic database by '
+         COMMON_NOTE + 'Process death (torn files) is the database journal\'s business and cannot be exhibited by the model (atomic database by '
          'assumption). The injected failure is an exception raised before the statement is sent.',
          'Coq proof (state equality + determinism of the step function) + fault enumeration at statement boundaries + vm_compute replay',
          'DESIGN.md §7 C06')
